@@ -500,6 +500,19 @@ def check_c15(out, tier):
         payloads.append({"id": base["id"] + ".cached", "case": base, "kind": "ep", "cached": True})
         payloads.append({"id": base["id"] + ".uncached", "case": base, "kind": "ep", "cached": False})
         groups.append(base)
+    # more target nodes than any batching of the exploration could hold at once (a ring of links among > 100 instances), with
+    # inverse paths: every link is an outgoing arc of one target and an incoming arc of another
+    for j, n in enumerate([104] if tier == "quick" else [104, 150, 230]):
+        nodes = [M.iri(M.EX + "r%d" % i) for i in range(n)]
+        T = [(x, M.RDF_TYPE, M.iri(M.EX + "Ring")) for x in nodes]
+        T += [(nodes[i], M.EX + "knows", nodes[(i * 7 + 3) % n]) for i in range(n)]
+        rnd.shuffle(T)
+        mode = rnd.choice(["all", "classes"])
+        base = gen.case("c15ring%d" % j, T, inverse=True, report="mixed", mode=mode, targets=[M.EX + "Ring"] if mode == "classes" else [])
+        payloads.append({"id": base["id"] + ".local", "case": base, "kind": "local"})
+        payloads.append({"id": base["id"] + ".cached", "case": base, "kind": "ep", "cached": True})
+        payloads.append({"id": base["id"] + ".uncached", "case": base, "kind": "ep", "cached": False})
+        groups.append(base)
     results = runner.run_many(_run_c15, payloads, chunk=6)
     by = {}
     for p, r_ in zip(payloads, results):
@@ -525,7 +538,7 @@ def check_c15(out, tier):
         if ca["queries"] == 0:
             out.violation("C15.noqueries", {"case": base}, "the endpoint run sent no query at all: the substitute endpoint was bypassed")
         out.sample({"case": base["id"], "mode": base["cfg"]["mode"], "queries_cached": ca["queries"], "queries_uncached": un["queries"]})
-    verdicts, stats = tlc.validate_batch("Trace_Campaign", "Trace_Campaign.cfg", traces, procs=10)
+    verdicts, stats = tlc.validate_batch("Trace_Campaign", "Trace_Campaign.cfg", traces, procs=10, xss="64m")
     out.traces += len(payloads)
     out.evaluations += len(traces)
     out.notes["monitor_states"] = stats["states"]
